@@ -37,7 +37,8 @@ Theorem C17_selected_subset : forall srt, (forall t, forest_perm t (srt t)) ->
   forall c a benches groups,
   is_list a = false -> a <> ListTerse ->
   Permutation (executed (fst (run_action c srt a benches groups)))
-              (filter (fun x => c_filter c (xpath x)) (flat_map (keyed_case c groups) (all_entries benches groups))).
+              (filter (fun x => c_filter c (xpath x))
+                      (flat_map (keyed_case c (attach_key benches groups) groups) (all_entries benches groups))).
 Proof. exact selected_subset. Qed.
 Print Assumptions C17_selected_subset.
 
